@@ -147,15 +147,15 @@ MUTANTS = [
     ("find-sources-file-shadowed-by-any-dir", "C18", "find_sources_in_dir", "mypy/find_sources.py", "                if sub_sources:\n                    seen.add(name)\n                    sources.extend(sub_sources)", "                seen.add(name)\n                if sub_sources:\n                    sources.extend(sub_sources)", "violation"),
     ("find-modules-init-pyi-not-a-package", "C18", "find_modules_recursive", "mypy/modulefinder.py", '                    self.fscache.isfile(os_path_join(subpath, "__init__.py"))\n                    or self.fscache.isfile(os_path_join(subpath, "__init__.pyi"))', '                    self.fscache.isfile(os_path_join(subpath, "__init__.py"))', "violation"),
     ("watch-add-forgets-entry", "C03", "add_watched", "mypy/fswatcher.py", "            if path not in self._paths:\n                # By storing None this path will get reported as changed by\n                # find_changed if it exists.\n                self._file_data[path] = None", "            if path not in self._paths and path.endswith('.py'):\n                self._file_data[path] = None", "violation"),
-    ("watch-remove-keeps-watched", "C03", "remove_watched", "mypy/fswatcher.py", "        self._paths -= set(paths)", "        self._paths &= set(paths)", "violation"),
+    ("watch-remove-keeps-watched", "C03", "remove_watched", "mypy/fswatcher.py", "        self._paths -= set(paths)", "        self._paths &= set(paths)", "violation|undecided"),
     ("deps-typing-prefix-too-wide", "C03", "deps", "mypy/server/deps.py", '("<builtins.", "<typing.", "<mypy_extensions.", "<typing_extensions.")', '("<builtins.", "<typing", "<mypy_extensions.")', "violation"),
     ("update-proto-reset-dropped", "C03", "update", "mypy/server/update.py", "        for info in stale_protos:\n            type_state.reset_subtype_caches_for(info)\n", "", "violation"),
     ("subkind-always-covariant-dropped", "C08", "subtypes", "mypy/subtypes.py", "            subtype_context.always_covariant,\n", "", "violation"),
     ("typestate-negative-cache-short-key", "C08", "typestate", "mypy/typestate.py", "        subcache = cache.setdefault(kind, set())\n        if len(subcache) > MAX_NEGATIVE_CACHE_ENTRIES:", "        subcache = cache.setdefault(kind[1:], set())\n        if len(subcache) > MAX_NEGATIVE_CACHE_ENTRIES:", "violation"),
-    ("optframe-new-analysis-option-read", "C09", "options.reads_frame", "mypy/checker.py", "        self.options = options\n", "        self.options = options\n        self._verbose = options.verbosity > 3\n", "violation"),
+    ("optframe-new-analysis-option-read", "C09", "options.reads_frame", "mypy/checker.py", "        self.options = options\n", "        self.options = options\n        self._stats = options.dump_type_stats\n", "violation"),
     ("scc-data-phase-commit-dropped", "C04", "proto.scc.data_phase", "mypy/build.py", "        meta_tuple = graph[id].write_cache()\n        meta_tuples[id] = meta_tuple\n        # Commit data file write immediately to avoid holding shard locks across modules.\n        if meta_tuple is not None:\n            manager.commit_module(meta_tuple[1])\n    for id in stale:\n        meta_tuple = meta_tuples[id]\n        if meta_tuple is None:\n            continue\n        meta, meta_file = meta_tuple\n        state = graph[id]\n        # Indirect", "        meta_tuple = graph[id].write_cache()\n        meta_tuples[id] = meta_tuple\n    for id in stale:\n        meta_tuple = meta_tuples[id]\n        if meta_tuple is None:\n            continue\n        meta, meta_file = meta_tuple\n        state = graph[id]\n        # Indirect", "violation"),
     ("impl-phase-meta-ex-under-wrong-name", "C04", "scc_implementation", "mypy/build.py", "            write_cache_meta_ex(meta_file, meta_ex, manager)\n        manager.commit_module(meta_file)\n\n    manager.add_stats(type_check_time_implementation", "            write_cache_meta_ex(id, meta_ex, manager)\n        manager.commit_module(meta_file)\n\n    manager.add_stats(type_check_time_implementation", "violation"),
-    ("stem-lemma-suffix-without-dot", "C04", "stem.names", "mypy/util.py", '        if c == ord("."):\n            end = i', '        if c == ord("_"):\n            end = i', "violation"),
+    ("stem-scan-stops-at-underscore", "C04", "stem.scan", "mypy/util.py", '        if c == ord("."):\n            end = i', '        if c == ord("_"):\n            end = i', "violation"),
     ("is-fresh-ignores-import-options", "C02", "is_fresh", "mypy/build.py", "                self.options.fine_grained_incremental\n                or self.meta.suppressed_deps_opts == self.suppressed_deps_opts()", "                True", "violation"),
     ("tagged-subtract-no-overflow-check", "C15", "tagged.Subtract", "mypyc/lib-rt/CPy.h", "        if (likely(!CPyTagged_IsSubtractOverflow(diff, left, right))) {", "        if (1) {", "violation"),
     ("tagged-lshift-limit-off-by-one", "C15", "tagged.Lshift", "mypyc/lib-rt/CPy.h", "               && right < CPY_INT_BITS * 2)) {", "               && right <= CPY_INT_BITS * 2)) {", "violation"),
